@@ -135,9 +135,13 @@ def build_family(tier, seed):
             arrs, ex = fam.thin(arrs, {1: None, 2: 400, 3: 300, 4: 100}[nd] if not thorough else {1: None, 2: None, 3: 3000, 4: 600}[nd], seed + nd)
             for a in arrs:
                 ol = ops.gen_unary(a, "quick" if not thorough else "thorough")
+                heavy = [o for o in ol if o[0] in ("qr", "svd", "svd_truncated")]  # these fork on data: one case each
+                ol = [o for o in ol if o not in heavy]
                 # split the op list so that one case stays short
                 for k in range(0, len(ol), 25):
                     cases.append(dict(a=a, ops=tuple(ol[k:k + 25])))
+                for o in heavy:
+                    cases.append(dict(a=a, ops=(o,)))
         # pre-fused and fused-then-sparsified pre-states
         base = list(fam.array_specs(sym, 3, two[:2], fermionic=fermionic, generic=generic, sparsity_threshold=3, phases=False, rng=rng, labels=(7,)))
         base, _ = fam.thin(base, 80 if not thorough else 800, seed + 9)
@@ -212,7 +216,7 @@ def run(tier, seed, only=None):
                      "AbelianArray.is_valid_sector", "Symmetry.combine/sign", "without"]
     rep.bounds = {"rank": "<=3 (4 thorough)", "charges_per_index": "<=2", "block_sizes": "1..2", "classes": [f"{s}{'-generic' if g else ''}{'-fermionic' if f else ''}" for s, g, f in CLASSES],
                   "program length": "1 (2 for structure-changing ops) from arbitrary audited pre-states"}
-    rep.outside = ["linalg results are audited under C11/C13", "states larger than the bound; torch/jax blocks; non-finite data", "drop_missing_blocks (data-dependent, in-place only)"]
+    rep.outside = ["eigh/solve results are audited under C11 (qr/svd/svd_truncated are swept here through the LAPACK contract stubs)", "states larger than the bound; torch/jax blocks; non-finite data", "drop_missing_blocks (data-dependent, in-place only)"]
     groups = build_family(tier, seed)
     run_groups(rep, groups, _run, only)
     if not only or "xh" in only:
